@@ -25,6 +25,7 @@ func TestVerifReplay(t *testing.T) {
 		"Verif_C13_ImportsChain":           Verif_C13_ImportsChain,
 		"Verif_C13_BigFile":                Verif_C13_BigFile,
 		"Verif_C13_TablesGeneric":          Verif_C13_TablesGeneric,
+		"Verif_C13_Source":                 Verif_C13_Source,
 		"Verif_C13_TablesMany":             Verif_C13_TablesMany,
 		"Verif_C12_Attribution":            Verif_C12_Attribution,
 		"Verif_C12_AttributionDecls":       Verif_C12_AttributionDecls,
